@@ -36,7 +36,8 @@ ASSUMPTIONS = [
     "pure-Python ecdsa package, which does not normalise)",
 ]
 REQUIRED_LABELS = {t: ["areas>=2", "out-of-order", "zone-crossing", "multi-zone", "images>=2",
-                       "crlf", "start-record"] for t in ("quick", "thorough")}
+                       "crlf", "start-record", "keys-generated:1", "full-zone-area"]
+                   for t in ("quick", "thorough")}
 
 
 @st.composite
@@ -51,12 +52,18 @@ def image(draw):
             gap = 1 if draw(st.booleans()) else 0
         start = pos + gap
         ln = draw(st.one_of(st.integers(1, 64), st.integers(1, 3000)))
+        if draw(st.integers(0, 24)) == 0:
+            # code that fills whole 64 KiB zones (or just misses doing so)
+            ln = draw(st.sampled_from([0x10000, 0x10000 - 1, 0x10000 + 1, 0x20000, 70000,
+                                       0x10000 - (start & 0xFFFF) or 0x10000,
+                                       0x20000 - (start & 0xFFFF)]))
         seedb = draw(st.binary(min_size=1, max_size=16))
         data = (seedb * (ln // len(seedb) + 1))[:ln]
         areas.append([start, data])
         pos = start + ln
+    big = any(len(x) > 8000 for _, x in areas)
     return {"areas": areas,
-            "reclens": draw(st.lists(st.integers(1, 255), min_size=1, max_size=8)),
+            "reclens": draw(st.lists(st.integers(16 if big else 1, 255), min_size=1, max_size=8)),
             "order": draw(st.permutations(list(range(n)))),
             "reemit": draw(st.booleans()),
             "start": draw(st.one_of(st.none(), st.integers(0, 2 ** 32 - 1))),
@@ -112,31 +119,58 @@ def verify_libsecp(pub_bytes, digest, sig_der):
     return pub.ecdsa_verify(digest, sig, raw=True)
 
 
-def one_time_run(d, paths, tag):
-    written = []
-    real_open = open
-    captured = {}
+def snapshot(d):
+    out = {}
+    for root, _, files in os.walk(d):
+        for f in files:
+            p = os.path.join(root, f)
+            st_ = os.stat(p)
+            out[os.path.abspath(p)] = (st_.st_mtime_ns, st_.st_size)
+    return out
 
-    def tracking_open(path, mode="r", *a, **k):
-        if any(c in mode for c in "wax+"):
-            written.append(os.path.abspath(path))
-        return real_open(path, mode, *a, **k)
+
+def one_time_run(d, paths, tag):
+    """Runs the tool with the working directory inside the (otherwise empty) scratch directory
+    and reports which files it created or changed there, however it wrote them."""
+    captured = {}
     orig_generate = ecdsa.SigningKey.generate
 
     def generate(*a, **k):
         sk = orig_generate(*a, **k)
         captured.setdefault("keys", []).append(sk)
         return sk
-    signonetime.open = tracking_open
     ecdsa.SigningKey.generate = generate
     pub_path = os.path.join(d, "pub-%s.txt" % tag)
+    before = snapshot(d)
+    cwd = os.getcwd()
+    os.chdir(d)
+    err = io.StringIO()
     try:
-        code, out = run_main(signonetime, ["signonetime.py", "-a", ",".join(paths), "-p",
-                                           pub_path])
+        with contextlib.redirect_stderr(err):
+            code, out = run_main(signonetime, ["signonetime.py", "-a", ",".join(paths), "-p",
+                                               pub_path])
     finally:
-        del signonetime.open
+        os.chdir(cwd)
         ecdsa.SigningKey.generate = orig_generate
-    return code, out, written, captured.get("keys", []), pub_path
+    after = snapshot(d)
+    written = sorted(p for p in after if before.get(p) != after[p])
+    return code, out + err.getvalue(), written, captured.get("keys", []), pub_path
+
+
+def secret_forms(sk):
+    import base64
+    raw = sk.to_string()
+    n = int.from_bytes(raw, "big")
+    forms = [raw, raw.hex().encode(), raw.hex().upper().encode(), str(n).encode(),
+             base64.b64encode(raw), base64.b64encode(raw).rstrip(b"="),
+             raw.lstrip(b"\x00").hex().encode(), ("%x" % n).encode()]
+    for fn in ("to_der", "to_pem"):
+        try:
+            v = getattr(sk, fn)()
+            forms.append(v if isinstance(v, bytes) else v.encode())
+        except Exception:
+            pass
+    return [f for f in forms if len(f) >= 16]
 
 
 def run_case(c):
@@ -171,6 +205,8 @@ def run_case(c):
             labels.append("multi-zone")
         if img["eol"] == "\r\n":
             labels.append("crlf")
+        if any(len(x) >= 0x10000 for a, x in img["areas"]):
+            labels.append("full-zone-area")
         if img["start"] is not None:
             labels.append("start-record")
     if len(paths) >= 2:
@@ -206,7 +242,7 @@ def run_case(c):
         if sorted(written) != want_written:
             raise Violation("signonetime-writes-other-files", "%r vs %r" % (sorted(written),
                                                                             want_written))
-        labels.append("keys-generated:%d" % len(keys))
+        labels.append("keys-generated:%d" % len(keys) if keys else "keys-not-observed")
         with open(pub_path, "rb") as f:
             pub_hex = f.read()
         try:
@@ -215,7 +251,6 @@ def run_case(c):
             raise Violation("public-key-file-format", repr(pub_hex[:80]))
         if len(pub) != 65 or pub[0] != 4:
             raise Violation("public-key-not-single-uncompressed", pub.hex())
-        secrets_ = [k.to_string() for k in keys]
         blobs = {pub_path: pub_hex}
         for p, hsh in zip(paths, hashes):
             with open(p + ".sig", "rb") as f:
@@ -229,11 +264,17 @@ def run_case(c):
             if not ok:
                 raise Violation("signature-does-not-verify", "%s.sig does not verify for the "
                                 "image hash under the written public key" % os.path.basename(p))
-        for name, blob in list(blobs.items()) + [("stdout", out.encode())]:
-            for secret in secrets_:
-                if secret in blob or secret.hex().encode() in blob.lower():
-                    raise Violation("private-key-written", "the signing scalar appears in %s"
-                                    % name)
+        # every file of the scratch directory (whatever wrote it) and everything printed
+        for path_ in snapshot(d):
+            if path_ not in blobs:
+                with open(path_, "rb") as f:
+                    blobs[path_] = f.read()
+        for name, blob in list(blobs.items()) + [("output", out.encode())]:
+            for k in keys:
+                for form in secret_forms(k):
+                    if form in blob:
+                        raise Violation("private-key-written", "the signing key appears in %s"
+                                        % name)
         pubs.append(pub)
     if pubs[0] == pubs[1]:
         raise Violation("key-reused-across-runs", pubs[0].hex())
